@@ -198,3 +198,56 @@ func VH_c14_callbacks() {
 	verifrt.Assert("callbacks-receive-the-data", rightRemote)
 	verifrt.Observe("invocations", len(vhCalls))
 }
+
+func init() {
+	verifrt.Register("VH_c14_race", VH_c14_race)
+}
+
+// C14 (schedules): registrations concurrent with each other and with an arrival.
+func VH_c14_race() {
+	sc := verifrt.ShardChoice("case", 3)
+	verifrt.Scenario([]string{"two-registrations-of-one-callback", "registration-racing-with-the-reply", "registration-racing-with-a-result"}[sc])
+	vhCalls = nil
+	w := vhNewWorld(vhWorldOpts{noEvents: true, onlyA: true})
+	const ctr = 5000
+	src := vhAddr("A", []uint{1}, 2)
+	switch sc {
+	case 0:
+		var e1, e2 error
+		verifrt.Go(func() { e1 = w.F3.AddResponseCallback(ctr, vhCbA) })
+		verifrt.Go(func() { e2 = w.F3.AddResponseCallback(ctr, vhCbA) })
+		verifrt.PreemptOn()
+		verifrt.WaitIdle()
+		verifrt.PreemptOff()
+		verifrt.Reach("both-done")
+		verifrt.Assert("exactly-one-of-two-concurrent-registrations-of-the-same-callback-is-accepted", (e1 == nil) != (e2 == nil))
+	default:
+		cl := model.CmdClassifierTypeReply
+		cmd := model.CmdType{LoadControlLimitListData: vhLimitList(1, true)}
+		if sc == 2 {
+			cl = model.CmdClassifierTypeResult
+			cmd = model.CmdType{ResultData: &model.ResultDataType{ErrorNumber: util.Ptr(model.ErrorNumberType(0))}}
+		}
+		h := w.hdr(src, w.F3.Address(), cl, false)
+		h.MsgCounterReference = util.Ptr(model.MsgCounterType(ctr))
+		d := model.DatagramType{Header: h, Payload: model.PayloadType{Cmd: []model.CmdType{cmd}}}
+		var e1 error
+		verifrt.Go(func() { e1 = w.F3.AddResponseCallback(ctr, vhCbA) })
+		verifrt.Go(func() { vhDeliver(w.rA, d) })
+		verifrt.PreemptOn()
+		verifrt.WaitIdle()
+		verifrt.PreemptOff()
+		verifrt.RunReadyFIFO()
+		verifrt.Reach("both-done")
+		verifrt.Assert("registration-accepted", e1 == nil)
+		first := len(vhCalls)
+		verifrt.Assert("callback-invoked-at-most-once", first <= 1)
+		// not lost: if the arrival came first the registration is still pending and a second arrival fires it
+		h2 := w.hdr(src, w.F3.Address(), cl, false)
+		h2.MsgCounterReference = util.Ptr(model.MsgCounterType(ctr))
+		vhDeliver(w.rA, model.DatagramType{Header: h2, Payload: model.PayloadType{Cmd: []model.CmdType{cmd}}})
+		verifrt.RunReadyFIFO()
+		verifrt.Assert("callback-invoked-exactly-once-over-both-arrivals", len(vhCalls) == 1)
+	}
+	verifrt.Assert("no-thread-left-blocked", verifrt.BlockedThreads() == 0)
+}
